@@ -2400,6 +2400,9 @@ func frameFilesHardened(c *Ctx, p *Prog, m *Model) {
 				if cal := calleeOf(x); cal != nil && nm(cal) == "checkpath" {
 					continue
 				}
+				if cal := calleeOf(x); cal != nil && cal.Pkg == p.Slog && isBaseNameFn(cal) {
+					continue // only the final path element is taken: no directory is reported
+				}
 				if cal := calleeOf(x); cal != nil && cal.Pkg != p.Slog && (cal.Name() == "Fprintf" || cal.Name() == "Sprintf") && !printTree(p, m)[x.Parent()] {
 					continue // the stack dump of the panic/diagnostic helpers, outside the record path
 				}
@@ -3690,4 +3693,332 @@ func takesPrintCtx(fn *ssa.Function) bool {
 		}
 	}
 	return false
+}
+
+// lookupHitIsPure (R10.4): asking for a child that exists is a pure lookup: in newChildLogger the blocks reached on the
+// hit edge of the registry lookup contain no call at all (re-applying the options given would register Add*Writer
+// destinations again on every lookup and mutate a logger other goroutines log through).
+func lookupHitIsPure(c *Ctx, p *Prog, rule string) {
+	r := c.R
+	fn := p.Method(p.Slog, "Entry", "newChildLogger")
+	if fn == nil {
+		r.Unk(rule, "lookup-hit", "-", "newChildLogger not found")
+		return
+	}
+	n := 0
+	var bad []string
+	for _, b := range fn.Blocks {
+		iff := ifOf(b)
+		if iff == nil {
+			continue
+		}
+		cond, neg := normCond(iff.Cond)
+		ex, ok := cond.(*ssa.Extract)
+		if !ok || ex.Index != 1 {
+			continue
+		}
+		lk, ok := ex.Tuple.(*ssa.Lookup)
+		if !ok || !lk.CommaOk {
+			continue
+		}
+		n++
+		hit := 0
+		if neg {
+			hit = 1
+		}
+		for _, bb := range fn.Blocks {
+			if !edgeDominates(b, hit, bb) {
+				continue
+			}
+			for _, in := range bb.Instrs {
+				if cs, isCall := in.(ssa.CallInstruction); isCall {
+					if bi, isB := cs.Common().Value.(*ssa.Builtin); isB && (bi.Name() == "len" || bi.Name() == "cap") {
+						continue
+					}
+					bad = append(bad, p.Pos(instrPos(cs)))
+				}
+			}
+		}
+	}
+	sort.Strings(bad)
+	r.Check(n > 0 && len(bad) == 0, rule, "lookup-hit:"+shortName(fn), p.FuncPos(fn), "the hit edge of the registry lookup only returns the child found",
+		"on the hit edge of the registry lookup newChildLogger makes calls ("+strings.Join(bad, ", ")+"): looking an existing child up changes it (options applied again, destinations registered twice) while other goroutines may be logging through it")
+}
+
+// growPrimitiveCallers (R19.1): the length-extending primitives of the buffer (grow, tryGrowByReslice) are called by
+// the cloned bytes.Buffer methods only; anything else that wants room calls Grow (which restores the length).
+func growPrimitiveCallers(c *Ctx, p *Prog, rule string) {
+	r := c.R
+	clones := map[string]bool{}
+	for _, n := range c19Methods {
+		clones[n] = true
+	}
+	clones["grow"] = true
+	var bad []string
+	n := 0
+	for _, prim := range []string{"grow", "tryGrowByReslice"} {
+		f := p.Method(p.Slog, "PrintCtx", prim)
+		if f == nil {
+			continue
+		}
+		for _, cs := range p.staticCallers()[f] {
+			n++
+			cf := cs.Parent()
+			if cf.Signature.Recv() != nil && typeName(cf.Signature.Recv().Type()) == "PrintCtx" && clones[nm(cf)] {
+				continue
+			}
+			bad = append(bad, shortName(cf)+" calls "+prim+" at "+p.Pos(instrPos(cs)))
+		}
+	}
+	sort.Strings(bad)
+	r.Check(n > 0 && len(bad) == 0, rule, "grow-primitive-callers", "-", fmt.Sprintf("the %d calls of grow / tryGrowByReslice are all in the cloned buffer methods", n),
+		"a length-extending primitive of the buffer is called outside the cloned methods ("+strings.Join(bad, "; ")+"): it leaves the buffer longer by n stale bytes, which then stand inside the record")
+}
+
+// recordLevelWrittenOnce: the severity of a record is stored by PrintCtx.set (from the call) and by nothing else on
+// the print path: a printer that replaces it (by the level it is treated as, by the logger's level) changes the tag
+// printed and the destination selected.
+func recordLevelWrittenOnce(c *Ctx, p *Prog, m *Model, rule string) {
+	r := c.R
+	var bad []string
+	n := 0
+	for _, fn := range p.RepoFuncs() {
+		if fn.Pkg != p.Slog {
+			continue
+		}
+		for _, fs := range fieldStores(fn) {
+			if fs.Struct != "PrintCtx" || fs.Field != "lvl" {
+				continue
+			}
+			n++
+			if nm(fn) == "set" || nm(fn) == "setentry" || nm(fn) == "newPrintCtx" { // the session start: setentry presets, set stores the call's severity
+				continue
+			}
+			bad = append(bad, shortName(fn)+" at "+p.Pos(instrPos(fs.Instr)))
+		}
+	}
+	sort.Strings(bad)
+	r.Check(n > 0 && len(bad) == 0, rule, "record-level:single-writer", "-", fmt.Sprintf("the record's severity is stored by PrintCtx.set only (%d store(s))", n),
+		"the record's severity is overwritten on the print path ("+strings.Join(bad, "; ")+"): tag, colour and destination are then those of another level than the one the call was made with")
+}
+
+// regexpMatchOnlyDecides (R18.2): whether a registered regexp mapping is applied to a path depends on that regexp
+// matching the path and on nothing else: on the way from the loop over the regexp list to ReplaceAllString the only
+// per-entry test is a Match* call of the entry's own expression (a literal-prefix pre-filter skips unanchored patterns
+// that match further inside the path).
+func regexpMatchOnlyDecides(c *Ctx, p *Prog, rule string) {
+	r := c.R
+	cp := p.Func(p.Slog, "checkpath")
+	if cp == nil {
+		r.Unk(rule, "regexp-match-only", "-", "checkpath not found")
+		return
+	}
+	n := 0
+	for fn := range staticReach([]*ssa.Function{cp}, func(f *ssa.Function) bool { return f.Pkg != p.Slog }) {
+		for _, cs := range callsIn(fn) {
+			cal := calleeOf(cs)
+			if cal == nil || cal.Pkg == nil || cal.Pkg.Pkg.Path() != "regexp" || cal.Name() != "ReplaceAllString" || !inLoop(cs.Block()) {
+				continue
+			}
+			n++
+			h, body := natLoop(cs.Block())
+			var other []string
+			var inLoopIfs []*ssa.If
+			for b2 := range body {
+				if b2 == h || !b2.Dominates(cs.Block()) || b2 == cs.Block() {
+					continue
+				}
+				if iff := ifOf(b2); iff != nil {
+					inLoopIfs = append(inLoopIfs, iff)
+				}
+			}
+			for _, iff := range inLoopIfs {
+				g := guard{If: iff}
+				cond, _ := normCond(g.If.Cond)
+				if ph, isPhi := cond.(*ssa.Phi); isPhi {
+					// a short-circuit of several tests: every leaf must be the entry's Match
+					allMatch := true
+					for _, e := range ph.Edges {
+						if _, isC := e.(*ssa.Const); isC {
+							continue
+						}
+						ce, _ := normCond(e)
+						call, ok := ce.(*ssa.Call)
+						if !ok {
+							allMatch = false
+							continue
+						}
+						if c2 := calleeOf(call); c2 == nil || c2.Pkg == nil || c2.Pkg.Pkg.Path() != "regexp" || !strings.HasPrefix(c2.Name(), "Match") {
+							allMatch = false
+						}
+					}
+					if allMatch {
+						continue
+					}
+				}
+				okG := false
+				if call, ok := cond.(*ssa.Call); ok {
+					if c2 := calleeOf(call); c2 != nil && c2.Pkg != nil && c2.Pkg.Pkg.Path() == "regexp" && strings.HasPrefix(c2.Name(), "Match") {
+						okG = true
+					}
+				}
+				if !okG {
+					other = append(other, p.Pos(instrPos(g.If)))
+				}
+			}
+			sort.Strings(other)
+			r.Check(len(other) == 0, rule, fmt.Sprintf("regexp-match-only:%s#%d", shortName(fn), n), p.Pos(instrPos(cs)), "inside the loop only the entry's own Match decides whether it is applied",
+				"inside the loop over the regexp mappings another test (at "+strings.Join(other, ", ")+") decides whether an entry is applied: a registered pattern that matches the path is skipped, and the directory it protects is reported")
+		}
+	}
+	if n == 0 {
+		r.Unk(rule, "regexp-match-only", p.FuncPos(cp), "no ReplaceAllString inside a loop found behind checkpath")
+	}
+}
+
+// callerPrinterFlagFree (R14.5): once the decision to print the caller is made (flag Lcaller, in the record printer),
+// the caller printer itself prints file, line and function unconditionally: neither printPC nor a private helper it
+// reaches tests the flag word (a second flag gating file/line makes records carry half of the caller information).
+func callerPrinterFlagFree(c *Ctx, p *Prog, rule string) {
+	r := c.R
+	pp := p.Method(p.Slog, "Entry", "printPC")
+	fg := p.Global(p.Slog, "flags")
+	if pp == nil || fg == nil {
+		r.Unk(rule, "caller-printer:flag-free", "-", "printPC / flags not found")
+		return
+	}
+	var bad []string
+	n := 0
+	for fn := range staticReach([]*ssa.Function{pp}, func(f *ssa.Function) bool {
+		return f.Pkg != p.Slog || f.Object() == nil || (f != pp && f.Object().Exported()) || nm(f) == "checkpath" || nm(f) == "checkedfuncname" || nm(f) == "Extract"
+	}) {
+		if nm(fn) == "checkpath" || nm(fn) == "checkedfuncname" || nm(fn) == "Extract" {
+			continue
+		}
+		// the printer proper: methods of the logger / the encoder and helpers that take the encoder; how a frame's file
+		// and function names are shortened (privacy flags, short-file flags) is the hardening layer's business (C18)
+		if rt := fn.Signature.Recv(); rt != nil {
+			if tn := typeName(rt.Type()); tn != "Entry" && tn != "PrintCtx" {
+				continue
+			}
+		} else if !takesPrintCtx(fn) {
+			continue
+		}
+		n++
+		for _, b := range fn.Blocks {
+			iff := ifOf(b)
+			if iff == nil {
+				continue
+			}
+			hit := false
+			var walk func(v ssa.Value, d int)
+			seen := map[ssa.Value]bool{}
+			walk = func(v ssa.Value, d int) {
+				if v == nil || seen[v] || d > 6 || hit {
+					return
+				}
+				seen[v] = true
+				if g, ok := globalLoad(v); ok && g == fg {
+					hit = true
+					return
+				}
+				if call, ok := v.(*ssa.Call); ok {
+					if cal := calleeOf(call); cal != nil && (nm(cal) == "IsAnyBitsSet" || nm(cal) == "IsAllBitsSet") {
+						hit = true
+						return
+					}
+				}
+				if in, ok := v.(ssa.Instruction); ok {
+					for _, op := range in.Operands(nil) {
+						if *op != nil {
+							walk(*op, d+1)
+						}
+					}
+				}
+			}
+			walk(iff.Cond, 0)
+			if hit {
+				bad = append(bad, shortName(fn)+" at "+p.Pos(instrPos(iff)))
+			}
+		}
+	}
+	sort.Strings(bad)
+	r.Check(n > 0 && len(bad) == 0, rule, "caller-printer:flag-free", p.FuncPos(pp), "the caller printer tests no flag: file, line and function are printed together",
+		"the caller printer tests the flag word ("+strings.Join(bad, "; ")+"): with caller information enabled, some flag combinations print only part of file / line / function")
+}
+
+// isBaseNameFn: a private function of one string parameter that returns the final path element only: every return
+// is the parameter re-sliced from one past the last '/' found in it, or the parameter itself on the path where no '/'
+// was found (or the result of filepath.Base / path.Base of it). Such a value carries no directory at all.
+func isBaseNameFn(fn *ssa.Function) bool {
+	if fn == nil || len(fn.Blocks) == 0 || len(fn.Params) != 1 || !isStringT(fn.Params[0].Type()) || fn.Signature.Results().Len() != 1 {
+		return false
+	}
+	prm := fn.Params[0]
+	isLastSlash := func(v ssa.Value) (*ssa.Call, bool) {
+		call, ok := strip(v).(*ssa.Call)
+		if !ok {
+			return nil, false
+		}
+		cal := calleeOf(call)
+		if cal == nil || cal.Pkg == nil || cal.Pkg.Pkg.Path() != "strings" || !strings.HasPrefix(cal.Name(), "LastIndex") || strip(call.Common().Args[0]) != ssa.Value(prm) {
+			return nil, false
+		}
+		a := call.Common().Args[1]
+		if k, isC := constInt(a); isC && k == '/' {
+			return call, true
+		}
+		if s, isS := constString(a); isS && s == "/" {
+			return call, true
+		}
+		return nil, false
+	}
+	rets, _ := exitBlocks(fn)
+	if len(rets) == 0 {
+		return false
+	}
+	for _, rb := range rets {
+		res := strip(rb.Instrs[len(rb.Instrs)-1].(*ssa.Return).Results[0])
+		switch x := res.(type) {
+		case *ssa.Slice:
+			if strip(x.X) != ssa.Value(prm) || x.High != nil || x.Low == nil {
+				return false
+			}
+			bo, ok := x.Low.(*ssa.BinOp)
+			if !ok || bo.Op != token.ADD {
+				return false
+			}
+			if one, isC := constInt(bo.Y); !isC || one != 1 {
+				return false
+			}
+			if _, ok := isLastSlash(bo.X); !ok {
+				return false
+			}
+		case *ssa.Parameter:
+			// only where no slash was found
+			okNo := false
+			for _, g := range guardsOf(rb) {
+				cond, neg := normCond(g.If.Cond)
+				if bo, ok := cond.(*ssa.BinOp); ok {
+					if _, isLS := isLastSlash(bo.X); isLS {
+						taken := (g.Succ == 0) != neg
+						if z, isC := constInt(bo.Y); isC && ((bo.Op == token.GEQ && z == 0 && !taken) || (bo.Op == token.LSS && z == 0 && taken) || (bo.Op == token.EQL && z == -1 && taken) || (bo.Op == token.NEQ && z == -1 && !taken)) {
+							okNo = true
+						}
+					}
+				}
+			}
+			if !okNo {
+				return false
+			}
+		case *ssa.Call:
+			cal := calleeOf(x)
+			if cal == nil || cal.Pkg == nil || cal.Name() != "Base" || (cal.Pkg.Pkg.Path() != "path/filepath" && cal.Pkg.Pkg.Path() != "path") {
+				return false
+			}
+		default:
+			return false
+		}
+	}
+	return true
 }
